@@ -6,6 +6,7 @@ import (
 	"errors"
 	"fmt"
 	"io"
+	"strings"
 	"sync/atomic"
 	"time"
 
@@ -46,9 +47,15 @@ func one(it *fun.Iterator[int]) []*fun.Iterator[int] { return []*fun.Iterator[in
 func constructs() []construct {
 	nw := fun.WorkerGroupConfNumWorkers
 	return []construct{
-		{"Split", func(ctx context.Context, src func() *fun.Iterator[int], w int) []*fun.Iterator[int] { return src().Split(w) }},
-		{"Buffer", func(ctx context.Context, src func() *fun.Iterator[int], w int) []*fun.Iterator[int] { return one(src().Buffer(w - 1)) }},
-		{"ParallelBuffer", func(ctx context.Context, src func() *fun.Iterator[int], w int) []*fun.Iterator[int] { return one(src().ParallelBuffer(w)) }},
+		{"Split", func(ctx context.Context, src func() *fun.Iterator[int], w int) []*fun.Iterator[int] {
+			return src().Split(w)
+		}},
+		{"Buffer", func(ctx context.Context, src func() *fun.Iterator[int], w int) []*fun.Iterator[int] {
+			return one(src().Buffer(w - 1))
+		}},
+		{"ParallelBuffer", func(ctx context.Context, src func() *fun.Iterator[int], w int) []*fun.Iterator[int] {
+			return one(src().ParallelBuffer(w))
+		}},
 		// BufferedChannel / Channel hand out a plain channel fed by a pump goroutine that lives on
 		// the context given at construction: the documented ways to stop are exhaustion and
 		// cancelling that context (there is no Close on a channel)
@@ -94,6 +101,14 @@ func constructs() []construct {
 			}
 			return one(itertool.MergeSliceIterators(fun.SliceIterator(sl)))
 		}},
+		// worker-group options x context-aware user functions: a generator / mapper that reports
+		// the end of ITS context as an error must not keep the workers alive after Close/cancel
+		optVariant("GenerateParallel", "ce", true, false),
+		optVariant("GenerateParallel", "ic", false, true),
+		optVariant("GenerateParallel", "ce+ic", true, true),
+		optVariant("itertool.Map", "ce", true, false),
+		optVariant("itertool.Map", "ic", false, true),
+		optVariant("itertool.Map", "ce+ic", true, true),
 		{"dt.Map.Keys", func(ctx context.Context, src func() *fun.Iterator[int], w int) []*fun.Iterator[int] {
 			m := dt.Map[int, int]{1: 1, 2: 2, 3: 3}
 			return one(m.Keys())
@@ -106,6 +121,33 @@ func constructs() []construct {
 			return one(m.Keys())
 		}},
 	}
+}
+
+func optVariant(base, label string, contErr, inclCtx bool) construct {
+	return construct{base + "/" + label, func(_ context.Context, src func() *fun.Iterator[int], w int) []*fun.Iterator[int] {
+		opts := []fun.OptionProvider[*fun.WorkerGroupConf]{fun.WorkerGroupConfNumWorkers(w)}
+		if contErr {
+			opts = append(opts, fun.WorkerGroupConfContinueOnError())
+		}
+		if inclCtx {
+			opts = append(opts, fun.WorkerGroupConfIncludeContextErrors())
+		}
+		s := src()
+		if base == "GenerateParallel" {
+			return one(fun.Producer[int](func(ctx context.Context) (int, error) {
+				if err := ctx.Err(); err != nil {
+					return 0, err
+				}
+				return s.ReadOne(ctx)
+			}).Lock().GenerateParallel(opts...))
+		}
+		return one(itertool.Map(s, func(ctx context.Context, v int) (int, error) {
+			if err := ctx.Err(); err != nil {
+				return 0, err
+			}
+			return v, nil
+		}, opts...))
+	}}
 }
 
 func endTag(e *vs.End) (string, string) {
@@ -262,49 +304,53 @@ func build(tier string) ([]runner.Instance, time.Duration) {
 		out = append(out, runner.Instance{Group: c.name + "/" + stop, Name: fmt.Sprintf("%s/%s/n=%d,k=%d,w=%d,blocking=%v", c.name, stop, n, k, w, blocking), Bound: b, Scenario: scenario(c, n, k, w, stop, blocking)})
 	}
 	for _, c := range constructs() {
+		bnd := bound
+		if strings.Contains(c.name, "/") && tier != "thorough" {
+			bnd = 1 // option variants: quick explores them one level less deep
+		}
 		for w := 1; w <= maxW; w++ {
 			for n := 1; n <= maxN; n++ {
 				if c.name == "BufferedChannel" || c.name == "Channel" {
 					if c.name == "Channel" && w > 1 {
 						continue
 					}
-					add(c, n, n, w, "exhaust", false, bound+1)
-					add(c, 0, 0, w, "exhaust", false, bound+1)
+					add(c, n, n, w, "exhaust", false, bnd+1)
+					add(c, 0, 0, w, "exhaust", false, bnd+1)
 					for k := 0; k <= n; k++ {
-						add(c, n, k, w, "cancel", false, bound)
+						add(c, n, k, w, "cancel", false, bnd)
 						if k == n {
-							add(c, n, k, w, "cancel", true, bound)
+							add(c, n, k, w, "cancel", true, bnd)
 						}
 					}
-					add(c, n, n, w, "cancel-other", true, bound)
+					add(c, n, n, w, "cancel-other", true, bnd)
 					continue
 				}
 				if c.name == "Split" && w > 1 {
 					for k := 0; k <= n; k++ {
-						add(c, n, k, w, "close-first-read-others", false, bound+1)
-						add(c, n, k, w, "cancel-first-read-others", false, bound+1)
+						add(c, n, k, w, "close-first-read-others", false, bnd+1)
+						add(c, n, k, w, "cancel-first-read-others", false, bnd+1)
 						if k == n {
-							add(c, n, k, w, "close-first-read-others", true, bound+1)
+							add(c, n, k, w, "close-first-read-others", true, bnd+1)
 						}
 					}
 				}
-				add(c, n, n, w, "exhaust", false, bound)
+				add(c, n, n, w, "exhaust", false, bnd)
 				for k := 0; k <= n; k++ {
 					for _, stop := range []string{"close", "cancel", "close-cancel", "cancel-close"} {
-						add(c, n, k, w, stop, false, bound)
+						add(c, n, k, w, stop, false, bnd)
 						if k == n {
-							add(c, n, k, w, stop, true, bound)
+							add(c, n, k, w, stop, true, bnd)
 						}
 					}
 				}
 				for _, stop := range []string{"close-other", "cancel-other"} {
-					add(c, n, n, w, stop, true, bound)
+					add(c, n, n, w, stop, true, bnd)
 				}
-				add(c, n, 0, w, "close-race", false, bound+1)
-				add(c, n, 0, w, "close-race", true, bound+1)
+				add(c, n, 0, w, "close-race", false, bnd+1)
+				add(c, n, 0, w, "close-race", true, bnd+1)
 				if c.name == "Split" && w > 1 {
 					for k := 0; k <= n; k++ {
-						add(c, n, k, w, "abandon-one", false, bound)
+						add(c, n, k, w, "abandon-one", false, bnd)
 					}
 				}
 			}
